@@ -65,10 +65,16 @@ public:
     auto& tp            = substrate::getThreadPool();
     unsigned int mindex = tp.getSocket(index);
     // std::cerr << "[" << index << "," << index % active << "]\n";
-    if (mindex == substrate::ThreadPool::getSocket())
+    if (mindex == substrate::ThreadPool::getSocket()) {
       items.getLocal()->push(val);
-    else
-      pushBuffer.getRemote(mindex)->push(val);
+    } else {
+      // mindex is a socket, not a thread. Publish right away: only threads of
+      // the owning socket pop from this buffer, so an item left in the
+      // pusher's private chunk would never be seen.
+      pWL* remote = pushBuffer.getRemoteByPkg(mindex);
+      remote->push(val);
+      remote->flush();
+    }
   }
 
   template <typename ItTy>
